@@ -1,0 +1,5 @@
+//go:build !verif
+
+package rapidcore
+
+func verifAt(string) {}
